@@ -8,5 +8,6 @@ CONSTANTS
   NodeCounts = {3}
   SimCounts = {1, 2, 3, 4}
   DefaultConc = 16
+  BaseOutcomes = {"accept", "reject", "treject", "malformed", "slowok", "late", "hang"}
 INVARIANTS Emit
 CHECK_DEADLOCK FALSE
